@@ -24,10 +24,13 @@ structure SoftP where
   endCb : CbSpec
   cancelCb : CbSpec
   nSaw : Nat
+  req : Nat
+  isMap : Bool
+  mapHeld : Bool
 deriving DecidableEq
 
 def _root_.Taskpool.PTask.soft (k : PTask) : SoftP :=
-  ⟨k.phase, k.released, k.nCC, k.nEC, k.wasCancelled, k.endCb, k.cancelCb, k.nSaw⟩
+  ⟨k.phase, k.released, k.nCC, k.nEC, k.wasCancelled, k.endCb, k.cancelCb, k.nSaw, k.req, k.isMap, k.mapHeld⟩
 
 /-- the life cycle of one task, as far as callbacks are concerned (`lost` = the pool's ghost bit, DESIGN §4.3) -/
 structure OKs (lost : Bool) (s : SoftP) : Prop where
@@ -47,6 +50,8 @@ structure OKs (lost : Bool) (s : SoftP) : Prop where
           (s.wasCancelled = false → s.nCC = 0)
   s1 : s.nSaw ≤ 1
   s0 : (s.phase = .created ∨ s.phase = .inWorker) → s.nSaw = 0
+  /-- a map task keeps its map slot at least as long as its pool slot -/
+  mh : s.isMap = true → s.released = false → s.mapHeld = true
 
 def LifeOK (p : Pool) : Prop := ∀ (t : Nat) (tk : PTask), p.tasks[t]? = some tk → OKs p.lost tk.soft
 
@@ -87,7 +92,52 @@ structure RegOK (p : Pool) : Prop where
   cpl : p.lost = false → ∀ (t : Nat) (tk : PTask), p.tasks[t]? = some tk → tk.released = false →
           t ∈ p.running ∨ t ∈ p.cancelledR
 
-structure Good (cap : Cap) (L : Bool) (p : Pool) : Prop where
+/-! ### the per-call semaphore of the map family -/
+
+/-- tasks of request `m` that hold a slot of its `num_concurrent` semaphore -/
+def heldM (ts : List PTask) (m : Nat) : Nat := ts.countP (fun t => t.mapHeld && t.req == m)
+
+/-- a map spawner suspended in `_start_task` (waiting for room in the pool) carries one map slot of its own -/
+def _root_.Taskpool.Req.pend (r : Req) : Nat :=
+  if (r.kind == .map && r.acquired && r.frame == .waitRoom) = true then 1 else 0
+
+def _root_.Taskpool.Req.AcqOK (r : Req) : Prop := r.kind = .map → r.frame = .waitRoom → r.acquired = true
+
+/-- `r'` is `r` up to changes that move no map slot (a carried slot may only be dropped from the books) -/
+structure MSigLe (r' r : Req) : Prop where
+  value : r'.mapSem.value = r.mapSem.value
+  grants : grantsL r'.mapSem.waiters = grantsL r.mapSem.waiters
+  nc : r'.nc = r.nc
+  pend : r'.pend ≤ r.pend
+  acq : r.AcqOK → r'.AcqOK
+
+/-- a request whose own books are balanced without any task (a newly registered one) -/
+def FreshReq (r : Req) : Prop :=
+  (∃ v, r.mapSem.value = .fin v ∧ v + grantsL r.mapSem.waiters + r.pend ≤ r.nc) ∧ r.AcqOK
+
+theorem FreshReq.le {r' r : Req} (h : FreshReq r) (hle : MSigLe r' r) : FreshReq r' := by
+  obtain ⟨⟨v, hv, hs⟩, ha⟩ := h
+  refine ⟨⟨v, by rw [hle.value]; exact hv, ?_⟩, hle.acq ha⟩
+  rw [hle.grants, hle.nc]
+  have := hle.pend
+  omega
+
+theorem MSigLe.refl (r : Req) : MSigLe r r := ⟨rfl, rfl, rfl, Nat.le_refl _, fun h => h⟩
+
+theorem MSigLe.trans {a b c : Req} (h1 : MSigLe b a) (h2 : MSigLe c b) : MSigLe c a :=
+  ⟨h2.value.trans h1.value, h2.grants.trans h1.grants, h2.nc.trans h1.nc, Nat.le_trans h2.pend h1.pend,
+    fun h => h2.acq (h1.acq h)⟩
+
+/-- slot conservation of every call's own semaphore, as an inequality (a spawner that dies with an exception while it
+carries a slot takes the slot with it): `free + held by tasks + granted to the waiting spawner + carried ≤ num_concurrent` -/
+structure MapOK (p : Pool) : Prop where
+  ref : ∀ (t : Nat) (tk : PTask), p.tasks[t]? = some tk → tk.mapHeld = true → tk.req < p.reqs.length
+  le : ∀ (m : Nat) (r : Req), p.reqs[m]? = some r →
+        ∃ v, r.mapSem.value = .fin v ∧ v + heldM p.tasks m + grantsL r.mapSem.waiters + r.pend ≤ r.nc
+  acq : ∀ (m : Nat) (r : Req), p.reqs[m]? = some r → r.AcqOK
+
+/-- everything but the books of the map semaphores -/
+structure Good0 (cap : Cap) (L : Bool) (p : Pool) : Prop where
   slot : SlotOK cap p
   phase : PhaseOK p
   reg : RegOK p
@@ -97,8 +147,11 @@ structure Good (cap : Cap) (L : Bool) (p : Pool) : Prop where
   ll : L = false → p.lost = false
   al : L = false → p.apis = []
 
+structure Good (cap : Cap) (L : Bool) (p : Pool) : Prop extends Good0 cap L p where
+  map : MapOK p
+
 /-- `q` is `p` up to changes that neither move a slot nor put a task (back) into a slot-holding phase -/
-structure Tame (p q : Pool) : Prop where
+structure Tame0 (p q : Pool) : Prop where
   val : q.sem.value = p.sem.value
   grants : grantsL q.sem.waiters = grantsL p.sem.waiters
   len : q.tasks.length = p.tasks.length
@@ -111,7 +164,13 @@ structure Tame (p q : Pool) : Prop where
   soft : ∀ (t : Nat) (tk' : PTask), q.tasks[t]? = some tk' → ∃ tk : PTask, p.tasks[t]? = some tk ∧ tk'.soft = tk.soft
   apl : q.apis.length = p.apis.length
 
-theorem Tame.pt {p q : Pool} (h : Tame p q) (t : Nat) (tk' : PTask) (ht : q.tasks[t]? = some tk') :
+/-- … and that moves no slot of a map semaphore either -/
+structure Tame (p q : Pool) : Prop extends Tame0 p q where
+  rql : p.reqs.length ≤ q.reqs.length
+  rq : ∀ (m : Nat) (r' : Req), q.reqs[m]? = some r' →
+        (∃ r : Req, p.reqs[m]? = some r ∧ MSigLe r' r) ∨ (p.reqs.length ≤ m ∧ FreshReq r')
+
+theorem Tame0.pt {p q : Pool} (h : Tame0 p q) (t : Nat) (tk' : PTask) (ht : q.tasks[t]? = some tk') :
     ∃ tk : PTask, p.tasks[t]? = some tk ∧ tk'.released = tk.released ∧ (tk'.phase = tk.phase ∨ NYR tk'.phase = false) := by
   obtain ⟨tk, a, b⟩ := h.soft t tk' ht
   exact ⟨tk, a, congrArg SoftP.released b, Or.inl (congrArg SoftP.phase b)⟩
@@ -172,29 +231,42 @@ theorem getElem?_modify_some {α} (l : List α) (t i : Nat) (f : α → α) (y :
 
 /-! ### Tame: algebra -/
 
-theorem Tame.refl (p : Pool) : Tame p p :=
+theorem Tame0.refl (p : Pool) : Tame0 p p :=
   ⟨rfl, rfl, rfl, rfl, rfl, rfl, rfl, fun h => h, List.Sublist.refl _, fun _ tk' h => ⟨tk', h, rfl⟩, rfl⟩
 
-theorem Tame.trans {p q r : Pool} (h1 : Tame p q) (h2 : Tame q r) : Tame p r := by
+theorem Tame.refl (p : Pool) : Tame p p :=
+  ⟨Tame0.refl p, Nat.le_refl _, fun _ r' h => Or.inl ⟨r', h, MSigLe.refl r'⟩⟩
+
+theorem Tame0.trans {p q r : Pool} (h1 : Tame0 p q) (h2 : Tame0 q r) : Tame0 p r := by
   refine ⟨h2.val.trans h1.val, h2.grants.trans h1.grants, h2.len.trans h1.len, h2.run.trans h1.run,
-    h2.can.trans h1.can, h2.fin.trans h1.fin, h2.lost.trans h1.lost, fun h => h2.wnil (h1.wnil h), h2.gfl.trans h1.gfl, ?_, h2.apl.trans h1.apl⟩
+    h2.can.trans h1.can, h2.fin.trans h1.fin, h2.lost.trans h1.lost, fun h => h2.wnil (h1.wnil h), h2.gfl.trans h1.gfl, ?_,
+    h2.apl.trans h1.apl⟩
   intro t tk'' h
   obtain ⟨tk', hq, e2⟩ := h2.soft t tk'' h
   obtain ⟨tk, hp, e1⟩ := h1.soft t tk' hq
   exact ⟨tk, hp, e2.trans e1⟩
 
-theorem Tame.held {p q : Pool} (h : Tame p q) : heldL q.tasks = heldL p.tasks :=
+theorem Tame.trans {p q r : Pool} (h1 : Tame p q) (h2 : Tame q r) : Tame p r := by
+  refine ⟨h1.toTame0.trans h2.toTame0, Nat.le_trans h1.rql h2.rql, ?_⟩
+  intro m r'' h
+  rcases h2.rq m r'' h with ⟨r', hq, e2⟩ | ⟨hge, hf⟩
+  · rcases h1.rq m r' hq with ⟨r, hp, e1⟩ | ⟨hge, hf⟩
+    · exact Or.inl ⟨r, hp, e1.trans e2⟩
+    · exact Or.inr ⟨hge, hf.le e2⟩
+  · exact Or.inr ⟨Nat.le_trans h1.rql hge, hf⟩
+
+theorem Tame0.held {p q : Pool} (h : Tame0 p q) : heldL q.tasks = heldL p.tasks :=
   heldL_eq_of_pointwise _ _ h.len (fun t tk' ht => by
     obtain ⟨tk, a, b, _⟩ := h.pt t tk' ht; exact ⟨tk, a, b⟩)
 
-theorem Tame.slot {cap : Cap} {p q : Pool} (h : Tame p q) (hs : SlotOK cap p) : SlotOK cap q := by
+theorem Tame0.slot {cap : Cap} {p q : Pool} (h : Tame0 p q) (hs : SlotOK cap p) : SlotOK cap q := by
   cases cap with
   | fin n =>
     obtain ⟨v, hv, hsum⟩ := hs
     exact ⟨v, by rw [h.val]; exact hv, by rw [h.held, h.grants]; exact hsum⟩
   | inf => exact ⟨h.val.trans hs.1, h.wnil hs.2⟩
 
-theorem Tame.phase {p q : Pool} (h : Tame p q) (hp : PhaseOK p) : PhaseOK q := by
+theorem Tame0.phase {p q : Pool} (h : Tame0 p q) (hp : PhaseOK p) : PhaseOK q := by
   intro t tk' ht hn
   obtain ⟨tk, a, b, c⟩ := h.pt t tk' ht
   rcases c with e | n
@@ -202,7 +274,7 @@ theorem Tame.phase {p q : Pool} (h : Tame p q) (hp : PhaseOK p) : PhaseOK q := b
   · rw [n] at hn; cases hn
 
 /-- the task at index `t` in `q` and the task it came from in `p` -/
-theorem Tame.back {p q : Pool} (h : Tame p q) (t : Nat) (tk : PTask) (hp : p.tasks[t]? = some tk) :
+theorem Tame0.back {p q : Pool} (h : Tame0 p q) (t : Nat) (tk : PTask) (hp : p.tasks[t]? = some tk) :
     ∃ tk', q.tasks[t]? = some tk' ∧ tk'.released = tk.released ∧ (tk'.phase = tk.phase ∨ NYR tk'.phase = false) := by
   have hlt : t < q.tasks.length := by
     rw [h.len]; exact (List.getElem?_eq_some_iff.mp hp).1
@@ -210,7 +282,7 @@ theorem Tame.back {p q : Pool} (h : Tame p q) (t : Nat) (tk : PTask) (hp : p.tas
   obtain ⟨tk0, a, b, c⟩ := h.pt t q.tasks[t] (by simp [hlt])
   rw [hp] at a; cases a; exact ⟨b, c⟩
 
-theorem Tame.reg {p q : Pool} (h : Tame p q) (hr : RegOK p) : RegOK q := by
+theorem Tame0.reg {p q : Pool} (h : Tame0 p q) (hr : RegOK p) : RegOK q := by
   refine ⟨by rw [h.run, h.can, h.fin]; exact hr.nd, ?_, ?_, ?_, ?_⟩
   · intro t ht
     rw [h.run] at ht
@@ -243,7 +315,7 @@ theorem GroupsOK.of_eq {p q : Pool} (hr : GroupsOK p) (hg : q.groups = p.groups)
     GroupsOK q :=
   ⟨by rw [hg]; exact hr.nd, fun i hi => by rw [hl]; rw [hg] at hi; exact hr.lt i hi⟩
 
-theorem Tame.grp {p q : Pool} (h : Tame p q) (hr : GroupsOK p) : GroupsOK q :=
+theorem Tame0.grp {p q : Pool} (h : Tame0 p q) (hr : GroupsOK p) : GroupsOK q :=
   ⟨h.gfl.nodup hr.nd, fun i hi => by rw [h.len]; exact hr.lt i (h.gfl.subset hi)⟩
 
 theorem LifeOK.of_eq {p q : Pool} (hl : LifeOK p) (ht : q.tasks = p.tasks) (h4 : q.lost = p.lost) : LifeOK q := by
@@ -255,39 +327,95 @@ theorem LifeOK.lostMono {p q : Pool} (hl : LifeOK p) (ht : q.tasks = p.tasks) (h
   rw [ht] at h
   have h1 := hl t tk h
   cases hq : q.lost with
-  | true => exact ⟨h1.e0, h1.e1, h1.c1, h1.c0, h1.cw, h1.cc, h1.ec, h1.ord, h1.cn, h1.en, (fun _ hl' => by cases hl'), h1.s1, h1.s0⟩
+  | true => exact ⟨h1.e0, h1.e1, h1.c1, h1.c0, h1.cw, h1.cc, h1.ec, h1.ord, h1.cn, h1.en, (fun _ hl' => by cases hl'), h1.s1, h1.s0, h1.mh⟩
   | false =>
     cases hp : p.lost with
     | true => rw [hm hp] at hq; cases hq
     | false => rw [hp] at h1; exact h1
 
-theorem oks_new (lost : Bool) (ph : Phase) (ecb ccb : CbSpec) (hph : ph = .created) :
-    OKs lost ⟨ph, false, 0, 0, false, ecb, ccb, 0⟩ := by
+theorem oks_new (lost : Bool) (ph : Phase) (ecb ccb : CbSpec) (m : Nat) (isMap : Bool) (hph : ph = .created) :
+    OKs lost ⟨ph, false, 0, 0, false, ecb, ccb, 0, m, isMap, isMap⟩ := by
   subst hph
   exact ⟨fun _ => rfl, by simp, by simp, fun _ => ⟨rfl, rfl⟩, fun h => by simp at h, fun h => by simp at h,
     fun h => by simp at h, fun h => by simp at h, fun _ => rfl, fun _ => rfl, fun h => by simp at h, by simp,
-    fun _ => rfl⟩
+    fun _ => rfl, fun h _ => h⟩
 
-theorem Tame.life {p q : Pool} (h : Tame p q) (hl : LifeOK p) : LifeOK q := by
+theorem Tame0.life {p q : Pool} (h : Tame0 p q) (hl : LifeOK p) : LifeOK q := by
   intro t tk' ht
   obtain ⟨tk, a, b⟩ := h.soft t tk' ht
   rw [b, h.lost]; exact hl t tk a
 
+theorem countP_pointwise (f : PTask → Bool) (a b : List PTask) (hl : b.length = a.length)
+    (h : ∀ (t : Nat) (tk' : PTask), b[t]? = some tk' → ∃ tk : PTask, a[t]? = some tk ∧ f tk' = f tk) :
+    b.countP f = a.countP f := by
+  induction a generalizing b with
+  | nil => cases b <;> simp_all
+  | cons x xs ih =>
+    cases b with
+    | nil => simp at hl
+    | cons y ys =>
+      have h0 := h 0 y (by simp)
+      simp at h0
+      have := ih ys (by simpa using hl) (fun t tk' ht => by simpa using h (t+1) tk' (by simpa using ht))
+      simp only [List.countP_cons] at this ⊢
+      rw [this, h0]
+
+theorem Tame.heldM_eq {p q : Pool} (h : Tame p q) (m : Nat) : heldM q.tasks m = heldM p.tasks m :=
+  countP_pointwise _ _ _ h.len (fun t tk' ht => by
+    obtain ⟨tk, a, b⟩ := h.soft t tk' ht
+    exact ⟨tk, a, by rw [show tk'.mapHeld = tk.mapHeld from congrArg SoftP.mapHeld b,
+                          show tk'.req = tk.req from congrArg SoftP.req b]⟩)
+
+theorem Tame.map {p q : Pool} (h : Tame p q) (hm : MapOK p) : MapOK q := by
+  refine ⟨?_, ?_, ?_⟩
+  · intro t tk' ht hh
+    obtain ⟨tk, a, b⟩ := h.soft t tk' ht
+    rw [show tk'.req = tk.req from congrArg SoftP.req b]
+    exact Nat.lt_of_lt_of_le (hm.ref t tk a (by rw [← show tk'.mapHeld = tk.mapHeld from congrArg SoftP.mapHeld b]; exact hh)) h.rql
+  · intro m r' hr
+    rcases h.rq m r' hr with ⟨r, a, b⟩ | ⟨hge, ⟨v, hv, hs⟩, _⟩
+    · obtain ⟨v, hv, hs⟩ := hm.le m r a
+      refine ⟨v, by rw [b.value]; exact hv, ?_⟩
+      rw [h.heldM_eq, b.grants, b.nc]
+      have := b.pend
+      omega
+    · refine ⟨v, hv, ?_⟩
+      have h0 : Taskpool.heldM p.tasks m = 0 := by
+        unfold Taskpool.heldM
+        rw [List.countP_eq_zero]
+        intro tk hmem
+        obtain ⟨i, hi, rfl⟩ := List.getElem_of_mem hmem
+        by_cases hh : p.tasks[i].mapHeld = true
+        · have := hm.ref i p.tasks[i] (by simp [hi]) hh
+          have hne : p.tasks[i].req ≠ m := by omega
+          simp [hne]
+        · simp [hh]
+      rw [h.heldM_eq, h0]
+      omega
+  · intro m r' hr
+    rcases h.rq m r' hr with ⟨r, a, b⟩ | ⟨_, _, ha⟩
+    · exact b.acq (hm.acq m r a)
+    · exact ha
+
 /-- the two extra clauses of the strict variant, as a bundle -/
 def Strict (L : Bool) (p : Pool) : Prop := (L = false → p.lost = false) ∧ (L = false → p.apis = [])
 
+theorem Good0.strict {cap : Cap} {L : Bool} {p : Pool} (hg : Good0 cap L p) : Strict L p := ⟨hg.ll, hg.al⟩
 theorem Good.strict {cap : Cap} {L : Bool} {p : Pool} (hg : Good cap L p) : Strict L p := ⟨hg.ll, hg.al⟩
 
 theorem Strict.of_eq {L : Bool} {p q : Pool} (h : Strict L p) (h1 : q.lost = p.lost) (h2 : q.apis = p.apis) : Strict L q :=
   ⟨fun hl => by rw [h1]; exact h.1 hl, fun hl => by rw [h2]; exact h.2 hl⟩
 
-theorem Tame.good {cap : Cap} {L : Bool} {p q : Pool} (h : Tame p q) (hg : Good cap L p) : Good cap L q :=
+theorem Tame0.good0 {cap : Cap} {L : Bool} {p q : Pool} (h : Tame0 p q) (hg : Good0 cap L p) : Good0 cap L q :=
   ⟨h.slot hg.slot, h.phase hg.phase, h.reg hg.reg, h.grp hg.grp, h.life hg.life,
     fun hl => by rw [h.lost]; exact hg.ll hl,
     fun hl => List.eq_nil_of_length_eq_zero (by rw [h.apl, hg.al hl]; rfl)⟩
 
+theorem Tame.good {cap : Cap} {L : Bool} {p q : Pool} (h : Tame p q) (hg : Good cap L p) : Good cap L q :=
+  ⟨h.toTame0.good0 hg.toGood0, h.map hg.map⟩
+
 /-- released flag of a task is preserved along a tame change -/
-theorem Tame.released {p q : Pool} (h : Tame p q) (t : Nat) (tk : PTask) (hp : p.tasks[t]? = some tk) :
+theorem Tame0.released {p q : Pool} (h : Tame0 p q) (t : Nat) (tk : PTask) (hp : p.tasks[t]? = some tk) :
     ∃ tk', q.tasks[t]? = some tk' ∧ tk'.released = tk.released := by
   have hlt : t < q.tasks.length := by
     rw [h.len]; exact (List.getElem?_eq_some_iff.mp hp).1
@@ -299,9 +427,25 @@ theorem tame_of_eq (p q : Pool) (hs : q.sem = p.sem) (ht : q.tasks = p.tasks)
     (h1 : q.running = p.running := by rfl) (h2 : q.cancelledR = p.cancelledR := by rfl)
     (h3 : q.ended = p.ended := by rfl) (h4 : q.lost = p.lost := by rfl)
     (h5 : (flat q.groups).Sublist (flat p.groups) := by exact List.Sublist.refl _)
+    (h6 : q.apis.length = p.apis.length := by rfl) (h7 : q.reqs = p.reqs := by rfl) : Tame p q := by
+  refine ⟨⟨by rw [hs], by rw [hs], by rw [ht], h1, h2, h3, h4, by rw [hs]; exact fun h => h, h5, ?_, h6⟩, by rw [h7]; exact Nat.le_refl _, ?_⟩
+  · intro t tk' h; rw [ht] at h; exact ⟨tk', h, rfl⟩
+  · intro m r' h; rw [h7] at h; exact Or.inl ⟨r', h, MSigLe.refl r'⟩
+
+/-- as `tame_of_eq`, with every request rewritten by a function that moves no map slot -/
+theorem tame_of_map (p q : Pool) (f : Req → Req) (hs : q.sem = p.sem) (ht : q.tasks = p.tasks) (h7 : q.reqs = p.reqs.map f)
+    (hf : ∀ x, MSigLe (f x) x)
+    (h1 : q.running = p.running := by rfl) (h2 : q.cancelledR = p.cancelledR := by rfl)
+    (h3 : q.ended = p.ended := by rfl) (h4 : q.lost = p.lost := by rfl)
+    (h5 : (flat q.groups).Sublist (flat p.groups) := by exact List.Sublist.refl _)
     (h6 : q.apis.length = p.apis.length := by rfl) : Tame p q := by
-  refine ⟨by rw [hs], by rw [hs], by rw [ht], h1, h2, h3, h4, by rw [hs]; exact fun h => h, h5, ?_, h6⟩
-  intro t tk' h; rw [ht] at h; exact ⟨tk', h, rfl⟩
+  refine ⟨⟨by rw [hs], by rw [hs], by rw [ht], h1, h2, h3, h4, by rw [hs]; exact fun h => h, h5, ?_, h6⟩, by rw [h7]; simp, ?_⟩
+  · intro t tk' h; rw [ht] at h; exact ⟨tk', h, rfl⟩
+  · intro m r' h
+    rw [h7, List.getElem?_map] at h
+    cases hx : p.reqs[m]? with
+    | none => simp [hx] at h
+    | some x => simp [hx] at h; subst h; exact Or.inl ⟨x, rfl, hf x⟩
 
 namespace Pool
 
@@ -325,7 +469,8 @@ namespace Pool
 /-- a task update that changes only soft fields -/
 theorem tame_modTask (p : Pool) (t : Nat) (f : PTask → PTask)
     (hs : ∀ x, (f x).soft = x.soft := by intro x; rfl) : Tame p (p.modTask t f) := by
-  refine ⟨rfl, rfl, by simp [modTask], rfl, rfl, rfl, rfl, fun h => h, List.Sublist.refl _, ?_, rfl⟩
+  refine ⟨⟨rfl, rfl, by simp [modTask], rfl, rfl, rfl, rfl, fun h => h, List.Sublist.refl _, ?_, rfl⟩, Nat.le_refl _,
+    fun _ r' h => Or.inl ⟨r', h, MSigLe.refl r'⟩⟩
   intro i tk' h
   obtain ⟨x, hx, rfl⟩ := getElem?_modify_some p.tasks t i f tk' h
   refine ⟨x, hx, ?_⟩
@@ -333,7 +478,30 @@ theorem tame_modTask (p : Pool) (t : Nat) (f : PTask → PTask)
   · exact hs x
   · rfl
 
-theorem tame_modReq (p : Pool) (m f) : Tame p (p.modReq m f) := tame_of_eq _ _ rfl rfl
+/-- any change confined to the requests (and the ready handles) is tame as far as pool slots, phases, registries,
+groups and callbacks are concerned -/
+theorem tame0_of_eq (p q : Pool) (hs : q.sem = p.sem) (ht : q.tasks = p.tasks)
+    (h1 : q.running = p.running := by rfl) (h2 : q.cancelledR = p.cancelledR := by rfl)
+    (h3 : q.ended = p.ended := by rfl) (h4 : q.lost = p.lost := by rfl)
+    (h5 : (flat q.groups).Sublist (flat p.groups) := by exact List.Sublist.refl _)
+    (h6 : q.apis.length = p.apis.length := by rfl) : Tame0 p q := by
+  refine ⟨by rw [hs], by rw [hs], by rw [ht], h1, h2, h3, h4, by rw [hs]; exact fun h => h, h5, ?_, h6⟩
+  intro t tk' h; rw [ht] at h; exact ⟨tk', h, rfl⟩
+
+theorem tame0_modReq (p : Pool) (m : Nat) (f : Req → Req) : Tame0 p (p.modReq m f) := tame0_of_eq _ _ rfl rfl
+
+/-- an update of a request that moves no map slot -/
+theorem tame_modReq (p : Pool) (m : Nat) (f : Req → Req)
+    (hf : ∀ x, MSigLe (f x) x := by intro x; exact ⟨rfl, rfl, rfl, Nat.le_refl _, fun h => h⟩) : Tame p (p.modReq m f) := by
+  refine ⟨⟨rfl, rfl, rfl, rfl, rfl, rfl, rfl, fun h => h, List.Sublist.refl _, fun _ tk' h => ⟨tk', h, rfl⟩, rfl⟩,
+    by simp [modReq], ?_⟩
+  intro i r' h
+  simp only [modReq] at h
+  obtain ⟨x, hx, rfl⟩ := getElem?_modify_some p.reqs m i f r' h
+  refine Or.inl ⟨x, hx, ?_⟩
+  split
+  · exact hf x
+  · exact MSigLe.refl x
 theorem tame_modApi (p : Pool) (m f) : Tame p (p.modApi m f) :=
   tame_of_eq _ _ rfl rfl rfl rfl rfl rfl (List.Sublist.refl _) (by simp [modApi])
 theorem tame_modGather (p : Pool) (m f) : Tame p (p.modGather m f) := tame_of_eq _ _ rfl rfl
@@ -359,12 +527,6 @@ theorem tame_foldl {α} (l : List α) (f : Pool → α → Pool) (h : ∀ p a, T
 
 theorem tame_emitChildren (p : Pool) (cbs) : Tame p (p.emitChildren cbs) :=
   tame_foldl cbs _ (fun p _ => tame_emitRef p _) p
-
-theorem tame_releaseMap (p : Pool) (m) : Tame p (p.releaseMap m) := by
-  unfold releaseMap
-  split
-  · exact Tame.refl p
-  · exact (tame_modReq p m _).trans (tame_schedOpt _ _)
 
 /-! ### asyncio cancel primitives -/
 
@@ -399,8 +561,8 @@ theorem grantsL_cancelWaiterL (m : Nat) (ws : List Waiter) : grantsL (cancelWait
 
 theorem tame_cancelPoolWaiter (p : Pool) (m : Nat) :
     Tame p ({ p with sem := { p.sem with waiters := cancelWaiterL m p.sem.waiters } } : Pool) :=
-  ⟨rfl, grantsL_cancelWaiterL m _, rfl, rfl, rfl, rfl, rfl, fun h => by simp [h, cancelWaiterL], List.Sublist.refl _,
-   fun _ tk' h => ⟨tk', h, rfl⟩, rfl⟩
+  ⟨⟨rfl, grantsL_cancelWaiterL m _, rfl, rfl, rfl, rfl, rfl, fun h => by simp [h, cancelWaiterL], List.Sublist.refl _,
+   fun _ tk' h => ⟨tk', h, rfl⟩, rfl⟩, Nat.le_refl _, fun _ r' h => Or.inl ⟨r', h, MSigLe.refl r'⟩⟩
 
 theorem tame_metaCancel (p : Pool) (m) : Tame p (p.metaCancel m) := by
   unfold metaCancel
@@ -411,7 +573,9 @@ theorem tame_metaCancel (p : Pool) (m) : Tame p (p.metaCancel m) := by
     · split
       · exact (tame_cancelPoolWaiter p m).trans (tame_schedMeta _ _)
       · split
-        · exact (tame_modReq p m _).trans (tame_schedMeta _ _)
+        · refine (tame_modReq p m _ ?_).trans (tame_schedMeta _ _)
+          intro x
+          exact ⟨rfl, grantsL_cancelWaiterL m _, rfl, Nat.le_refl _, fun h => h⟩
         · exact tame_modReq p m _
 
 end Pool
